@@ -85,4 +85,42 @@ short cut. -/
 def CacheSound (key : Nat) (st : SessState) : Prop :=
   ∀ e ∈ st.cache, decodeFresh key e.1 = some e.2
 
+/-! ## Session status (`ClientSession::status`) -/
+
+inductive SessionStatus where
+  | active | needsRefresh | expired
+deriving DecidableEq, Repr
+
+/-- `ClientSession::status` at time `now` (seconds) for a session started at `start` with
+`expires_in`: no expiry ⇒ always active; otherwise expired when older than the maximum age, in need
+of refresh when older than half of it.  `none`: `now < start`, where the code's unsigned
+subtraction overflows (panic in a debug build, a huge age – expired – in a release build). -/
+def sessionStatus (start : Nat) (expiresIn : Option Nat) (now : Nat) : Option SessionStatus :=
+  match expiresIn with
+  | none => some .active
+  | some maxAge =>
+    if now < start then none else
+    let age := now - start
+    if age > maxAge then some .expired
+    else if age > maxAge / 2 then some .needsRefresh
+    else some .active
+
+/-- The config-file provider encodes its sessions with `expires_in = None` (config_file.rs `login`)
+and never asks for the status. -/
+def configFileExpiresIn : Option Nat := none
+
+/-! ## The cache key
+
+The code's cache is a `HashMap<Token, _>`: the key is the whole bearer string.  `decodeK` is the same
+decode with the cache indexed by an arbitrary function `k` of the token, to say what goes wrong when
+the key is less than the whole token (a prefix, a hash with collisions): `KM.Props.C20`. -/
+def decodeK {κ : Type} [DecidableEq κ] (k : Wire → κ) (key : Nat) (cache : List (κ × Session))
+    (w : Wire) : Option Session × List (κ × Session) :=
+  match cache.lookup (k w) with
+  | some s => (some s, cache)
+  | none =>
+    match decodeFresh key w with
+    | some s => (some s, (k w, s) :: cache)
+    | none => (none, cache)
+
 end KM.Http
